@@ -9,6 +9,18 @@ TRUST=("go/packages + go/ssa construction; the vendored x/tools interpreter's co
        "mathematical integers (no overflow); cvc5 1.0 / z3 verdicts (any unknown/error makes the run inconclusive, exit 2)")
 
 claimed={
+ "C05":{"category":"model_checking",
+   "text":"the C01 explorations with the write monitor: every cell of the lazily created syntax tree, comment lists and types.Info tables is write-protected; any store, map update or in-place append into a protected cell on an explored path is a candidate, realised as a Go program and confirmed by fingerprinting the real tree before/after the real checker runs; registered parameter values are checked around the ruleguard constructor",
+   "design_ref":"DESIGN.md 3 C05","technique":"generalised symbolic execution of go/ssa with a write monitor + SMT, realisation + native replay",
+   "note":TRUST+"; bounds as C01; go/types objects' internal caches are not protected; rule-based checkers outside"},
+ "C07":{"category":"model_checking",
+   "text":"the C01 explorations with assertions on every diagnostic in the checker's warning buffer: position is a token-start variable of the lazy input (never NoPos, never a computed value), fix ranges start/end at input positions and are not inverted, message non-empty; the message-formatting stub checks verb/argument counts, nil arguments and format strings built from source text; candidates are realised and the real diagnostics checked against the scanned token starts and file extent",
+   "design_ref":"DESIGN.md 3 C07","technique":"generalised symbolic execution of go/ssa + SMT, realisation + native replay with a token-level oracle",
+   "note":TRUST+"; bounds as C01; go/printer output and ruleguard-produced positions outside"},
+ "C14":{"category":"model_checking",
+   "text":"GSX checks (a) flag-cell -> assignCheckerParams -> constructor plumbing in both CLIs and an integrator override, (b) every real constructor stores the documented parameter key in the field it compares against, (c) monotonicity: two instances of a threshold checker differing only in the (symbolic) threshold visit the same lazy input and the relaxed one never reports more, (d) boundary: thresholds t and t+1 pin the flip point to the documented measure (nestingReduce, tooManyResults, hugeParam)",
+   "design_ref":"DESIGN.md 3 C14","technique":"relational symbolic execution of go/ssa (two checker instances, one lazy input) + SMT, realisation + native replay over a threshold sweep",
+   "note":TRUST+"; bounds as C01 (K=3/4, lists<=2); byte sizes are a symbolic Sizeof stub, so 'sizes quoted equal the platform size' is not covered; analyzer flag plumbing not covered"},
  "C01":{"category":"model_checking",
    "text":"for every hand-written checker found in /repo's current tree GSX builds the checker through its real constructor (symbolic parameter values) and symbolically executes (i) one visit of its visitor on a lazily initialised AST node and (ii) its whole file walker on a small lazily initialised file, over a lazily initialised types.Info / go/types object graph; every Go run-time panic reachable within the bound is a candidate whose structural model is realised as a type-correct Go program (declarations synthesised, go/types as oracle) and replayed through the real checker natively; only reproduced panics are reported",
    "design_ref":"DESIGN.md 3 C01",
